@@ -10,7 +10,8 @@
    asks for under key k, [eff_labels es] the names in use.  "Distinct labels" is [NoDup (eff_labels es)]. *)
 From Coq Require Import List ZArith Bool.
 Import ListNotations.
-From Verif Require Import Refs RefsSpec RefsProofs.
+From Verif Require Import Refs RefsSpec RefsProofs RefsDoc RefsDocProofs.
+From Verif Require Counters.
 Local Open Scope Z_scope.
 
 (* M1: for every history with pairwise distinct labels, after the run every reference whose label exists anywhere in
@@ -124,6 +125,104 @@ Theorem C09_resolve_all_tex_refuted :
     NoDup (map fst (attachments_tex es)) /\
     exists r k l o, last_ref es r k = Some l /\ target_tex es l = Some o /\ dget hk_eqb (r, k) (idrefs (run es)) <> Some (TObj o).
 Proof. exact resolve_all_tex_refuted. Qed.
+
+(* ---- documents: the numbering machine of C08 (Model/Counters.v) and the labels / references in one history -------------
+   A document is a list of  JNum e inner  (a numbering event e of Model/Counters.v -- \section, \begin{equation}, an
+   eqnarray with its rows, \caption, \begin{thm}, \item ... -- with, for every object it makes, the labels and references
+   written in that object's arguments)  and  JInl i  (a label, a reference, a group boundary between the objects).
+   [translate_c08 cls depth d] runs Counters.run_event over the numbering events and produces the history of Model/Refs.v in the
+   order of Macro.parse (current label, arguments, \the<counter>); objects are identified by their position among the objects
+   Counters.number_doc prints. *)
+
+(* D1: "its printed number is the object's number", the number being the one C08's Model computes: for every document with
+   distinct labels, every resolved reference holds the i-th object of the document and prints exactly what
+   Counters.number_doc prints for that object (C08_number_doc_spec_partial says that this is LaTeX's number). *)
+Theorem C09_ref_number_is_c08_number :
+  forall cls depth d es os,
+    translate_c08 cls depth d = Some (es, os) -> NoDup (eff_labels es) ->
+    exists ms outs,
+      Counters.number_doc cls depth (numbering_part d) = Counters.Ok (ms, outs) /\
+      forall r k l o, last_ref es r k = Some l -> target es l = Some o ->
+        exists i, o = Z.of_nat i /\
+                  dget hk_eqb (r, k) (idrefs (run es)) = Some (TObj o) /\
+                  Some (printed (run es) r k) = option_map snd (nth_error (c08_objects outs) i).
+Proof. exact ref_number_c08. Qed.
+Print Assumptions C09_ref_number_is_c08_number.
+
+(* D2: the same for any numbering machine: the number recorded for the i-th object is the one the machine gave it, and a
+   resolved reference holds an object that has a counter attribute and prints that number. *)
+Theorem C09_number_of_object :
+  forall (CE CS : Type) (cstep : CE -> CS -> option (CS * list oinfo)) d cs es os,
+    translate cstep d cs 0 = Some (es, os) ->
+    forall i, number_spec es (Z.of_nat i) = match nth_error os i with Some o => o_number o | None => None end.
+Proof. intros CE CS cstep. exact (number_of_object cstep). Qed.
+Theorem C09_ref_number_joint :
+  forall (CE CS : Type) (cstep : CE -> CS -> option (CS * list oinfo)) d cs es os,
+    translate cstep d cs 0 = Some (es, os) -> NoDup (eff_labels es) ->
+    forall r k l o, last_ref es r k = Some l -> target es l = Some o ->
+      exists i oi, o = Z.of_nat i /\ nth_error os i = Some oi /\ o_current oi = true /\
+                   dget hk_eqb (r, k) (idrefs (run es)) = Some (TObj o) /\ printed (run es) r k = o_number oi.
+Proof. intros CE CS cstep. exact (ref_number_joint cstep). Qed.
+Print Assumptions C09_ref_number_joint.
+
+(* D3: "a \label written in a numbered object attaches to that object": whatever stands before and after, a label written in
+   the arguments (title, caption, optional argument of \item or of a theorem, eqnarray row) of the j-th object a numbering
+   event makes names exactly that object -- the (m+j)-th of the document -- provided the object has a counter attribute
+   (starred or not, numbered or deeper than sec-num-depth). *)
+Theorem C09_label_in_object :
+  forall cls depth d es os e inner,
+    translate_c08 cls depth d = Some (es, os) -> In (JNum e inner) d ->
+    exists m os_e ms1 ms2,
+      c08_step cls depth e ms1 = Some (ms2, os_e) /\
+      (forall j oj, nth_error os_e j = Some oj -> nth_error os (m + j) = Some oj) /\
+      forall j oj ins l k,
+        nth_error os_e j = Some oj -> o_current oj = true -> nth_error inner j = Some ins ->
+        In (NLabel l) ins -> name_of l = Some k ->
+        In (k, Z.of_nat (m + j)) (attachments es).
+Proof. intros cls depth d es os e inner. exact (label_in_object (c08_step cls depth) d (Counters.init_state cls) es os e inner). Qed.
+Print Assumptions C09_label_in_object.
+
+(* D4: "... or directly after a sectioning command": once an object is the current label, a label written before the next
+   object becomes current names it, whatever references, groups or commands without a counter (they produce no event: starred or unstarred
+   vspace, hspace, line breaks) stand in between. *)
+Theorem C09_label_directly_after :
+  forall pre o ins post l k,
+    In (NLabel l) ins -> name_of l = Some k ->
+    In (k, o) (attachments (pre ++ ECurrent o :: map inl_event ins ++ post)).
+Proof. exact label_directly_after. Qed.
+
+(* the numbering machine run on its own makes the same objects: the translation adds nothing to C08's numbering *)
+Theorem C09_translate_numbering :
+  forall (CE CS : Type) (cstep : CE -> CS -> option (CS * list oinfo)) d cs n es os,
+    translate cstep d cs n = Some (es, os) -> run_numbering cstep (numbering_part d) cs = Some os.
+Proof. intros CE CS cstep. exact (translate_run_numbering cstep). Qed.
+
+(* non-vacuity of D1-D4: article, sec-num-depth 2: a forward reference to a label directly after an (unnumbered)
+   \subsubsection, a label inside a section title, inside \item[...], inside the optional argument of a theorem, on eqnarray
+   rows (the middle row \nonumber), a dangling reference *)
+Definition ex_section : str := [115;101;99;116;105;111;110].
+Definition ex_sub3 : str := [115;117;98;115;117;98;115;101;99;116;105;111;110].
+Definition ex_thm : str := [116;104;109].
+Definition ex_doc : list (@jevent Counters.event) :=
+ [ JNum (Counters.ENewTheorem ex_thm None None false) [];
+   JInl (NRef 10 0 [98]);
+   JNum (Counters.ESec ex_section false) [[NLabel [97]]];
+   JNum (Counters.ESec ex_sub3 false) [[]]; JInl (NLabel [98]);
+   JInl NOpen; JNum (Counters.EBeginList true) []; JNum Counters.EItem [[NLabel [99]]]; JNum Counters.EEndList []; JInl NClose;
+   JInl NOpen; JNum (Counters.EThm ex_thm) [[NLabel [116]]]; JInl NClose;
+   JInl NOpen; JNum (Counters.EEqnarray [false; true; false]) [[NLabel [114;49]]; []; [NLabel [114;51]]]; JInl NClose;
+   JInl (NRef 11 0 [97]); JInl (NRef 12 0 [114;51]); JInl (NRef 13 0 [122;122]); JInl (NRef 14 0 [99]); JInl (NRef 15 0 [116]) ].
+Example C09_doc_nonvacuous :
+  match translate_c08 0 2 ex_doc with
+  | Some (es, os) =>
+      nodup_b (eff_labels es) = true /\ well_placed es = true /\
+      map o_number os = [Some [49]; None; Some [49]; Some [49]; Some [49]; None; Some [50]] /\
+      map (fun r => (dget hk_eqb (r, 0) (idrefs (run es)), printed (run es) r 0)) [10; 11; 12; 13; 14; 15] =
+      [(Some (TObj 1), None); (Some (TObj 0), Some [49]); (Some (TObj 6), Some [50]); (Some (TPlace 1 [122; 122]), None);
+       (Some (TObj 2), Some [49]); (Some (TObj 3), Some [49])]
+  | None => False
+  end.
+Proof. vm_compute. repeat split. Qed.
 
 (* non-vacuity: a history with a forward reference, a backward one, one inside the object, a dangling one, groups,
    two pending holders under one name; the hypotheses hold and the conclusions are the interesting ones *)
